@@ -93,8 +93,17 @@ np.random.default_rng = _default_rng
 
 
 # ---------------------------------------------------------------------------
+RAW = {"on": False}
+
+
 def canon(x):
     """JSON-able canonical form; floats exactly (hex), sets sorted, arrays as bytes"""
+    if RAW["on"]:
+        return x
+    return canon_real(x)
+
+
+def canon_real(x):
     if isinstance(x, bool) or x is None or isinstance(x, (int, str)):
         return x
     if isinstance(x, float):
@@ -106,15 +115,17 @@ def canon(x):
     if isinstance(x, np.ndarray):
         return {"shape": list(x.shape), "dtype": str(x.dtype), "bytes": x.tobytes().hex()}
     if isinstance(x, (frozenset, set)):
-        return {"set": sorted((canon(v) for v in x), key=repr)}
+        return {"set": sorted((canon_real(v) for v in x), key=repr)}
     if isinstance(x, dict):
-        return {"dict": [[canon(k), canon(v)] for k, v in x.items()]}   # insertion order is observable
+        return {"dict": [[canon_real(k), canon_real(v)] for k, v in x.items()]}   # insertion order is observable
     if isinstance(x, (list, tuple)):
-        return [canon(v) for v in x]
+        return [canon_real(v) for v in x]
     return repr(x)
 
 
 def tree_obs(tree):
+    if RAW["on"]:
+        return tree
     return {"path": canon(tree.get_path()), "sliced": canon(tuple(tree.sliced_inds))}
 
 
@@ -568,6 +579,83 @@ def run_pool(api, variant, net, seed):
     return out
 
 
+# ---------------------------------------------------------------------------
+# "a function of its arguments and its seed": call, snapshot the result, DAMAGE the returned object in place (lists
+# appended / popped, dict entries changed and added, arrays overwritten, trees sliced), call again with identical
+# arguments -- the second result must equal the snapshot of the first (a memoised return value shared between callers
+# comes back damaged)
+def snapshot_result(x):
+    if isinstance(x, ccore.ContractionTree):
+        return {"tree": canon_real(x.get_path()), "sliced": canon_real(tuple(x.sliced_inds)),
+                "inputs": canon_real(x.inputs), "output": canon_real(x.output), "size_dict": canon_real(dict(x.size_dict))}
+    if isinstance(x, dict):
+        return {"dict": [[snapshot_result(k), snapshot_result(v)] for k, v in x.items()]}
+    if isinstance(x, (list, tuple)):
+        return [snapshot_result(v) for v in x]
+    return canon_real(x)
+
+
+def damage(x, depth=0):
+    """mutate x in place wherever it is mutable; returns the number of edits made"""
+    n = 0
+    if depth > 6:
+        return 0
+    if isinstance(x, ccore.ContractionTree):
+        try:
+            ix = next(iter(x.size_dict))
+            x.remove_ind_(ix)
+            n += 1
+        except Exception:
+            pass
+        return n
+    if isinstance(x, np.ndarray):
+        if x.size and x.flags.writeable:
+            x.flat[0] = x.flat[0] + 1
+            n += 1
+        return n
+    if isinstance(x, dict):
+        for v in list(x.values()):
+            n += damage(v, depth + 1)
+        for k in list(x)[:1]:
+            x[k] = 1 if not isinstance(x[k], (list, dict, set, np.ndarray)) else x[k]
+            n += 1
+        x["__damaged__"] = 1
+        return n + 1
+    if isinstance(x, list):
+        for v in x:
+            n += damage(v, depth + 1)
+        if x:
+            x.pop()
+        x.append("__damaged__")
+        return n + 1
+    if isinstance(x, set):
+        x.add("__damaged__")
+        return 1
+    if isinstance(x, tuple):
+        for v in x:
+            n += damage(v, depth + 1)
+        return n
+    return 0
+
+
+def run_mutate(api, variant, net, seed):
+    RAW["on"] = True
+    try:
+        first = run_api(api, variant, net, seed)
+        ref = snapshot_result(first)
+        edits = damage(first)
+        second = run_api(api, variant, net, seed)
+        got = snapshot_result(second)
+        third = snapshot_result(run_api(api, variant, net, seed))
+    finally:
+        RAW["on"] = False
+    out = {"result": ref, "edits": edits}
+    if got != ref or third != ref:
+        out.update({"RESULT_DEPENDS_ON_EARLIER_CALLERS": True, "second_call_after_the_first_result_was_edited": got,
+                    "third": third})
+    return out
+
+
 def run_repeat(api, variant, net, seed, hist, single_only):
     inputs = [tuple(t) for t in net["inputs"]]
     net = {"inputs": inputs, "output": tuple(net["output"]), "size_dict": dict(net["size_dict"])}
@@ -648,7 +736,9 @@ def main():
         signal.alarm(int(mode.get("job_timeout", 40)))
         try:
             TRACE["on"] = True
-            if job.get("pool"):
+            if job.get("mutate"):
+                rec["result"] = run_mutate(job["api"], job.get("variant", "default"), job.get("net"), job["seed"])
+            elif job.get("pool"):
                 rec["result"] = run_pool(job["api"], job.get("variant", "default"), job["net"], job["seed"])
             elif job.get("repeat"):
                 rec["result"] = run_repeat(job["api"], job.get("variant", "default"), job["net"], job["seed"],
